@@ -16,6 +16,7 @@ import (
 	"os"
 	"path/filepath"
 	"runtime"
+	"runtime/pprof"
 	"sort"
 	"strings"
 	"sync"
@@ -24,7 +25,9 @@ import (
 
 	f3 "github.com/filecoin-project/go-f3"
 	"github.com/filecoin-project/go-f3/certstore"
+	"github.com/filecoin-project/go-f3/ec"
 	"github.com/filecoin-project/go-f3/gpbft"
+	"github.com/filecoin-project/go-f3/internal/clock"
 	"github.com/filecoin-project/go-f3/internal/verif/vcommon"
 	"github.com/filecoin-project/go-f3/internal/verif/vfix"
 	"github.com/filecoin-project/go-f3/internal/writeaheadlog"
@@ -62,7 +65,9 @@ type world struct {
 	h     host.Host
 	ps    *pubsub.PubSub
 	m     manifest.Manifest
-	cs    *certstore.Store
+	tbl   gpbft.PowerEntries
+	ec    *fakeEC
+	ctx   context.Context // carries a mock clock that never advances: the participant stays idle
 	keys  vfix.Keys
 	root  string
 	nonce atomic.Uint64
@@ -79,7 +84,8 @@ func newWorld(root string) *world {
 	}
 	w.h = h
 	w.ps, err = pubsub.NewGossipSub(bg, h, pubsub.WithDefaultValidator(func(_ context.Context, _ peer.ID, msg *pubsub.Message) pubsub.ValidationResult {
-		if w.onWire != nil {
+		// the observer listens on the GPBFT topic (the chain-exchange topic carries no signed votes)
+		if w.onWire != nil && msg.GetTopic() == w.m.PubSubTopic() {
 			w.onWire(msg.Data)
 		}
 		return pubsub.ValidationAccept
@@ -90,19 +96,69 @@ func newWorld(root string) *world {
 	w.m = manifest.LocalDevnetManifest()
 	w.m.NetworkName = "verif-c12"
 	w.m.PubSub.CompressionEnabled = false
-	tbl := gpbft.PowerEntries{w.keys.Entry(1, gpbft.NewStoragePower(10), 1), w.keys.Entry(2, gpbft.NewStoragePower(10), 2)}
-	w.cs, err = certstore.CreateStore(bg, dssync.MutexWrap(datastore.NewMapDatastore()), 0, tbl)
-	if err != nil {
-		panic(err)
-	}
+	w.m.PubSub.ChainCompressionEnabled = false
+	w.m.EC.Finalize = true // production default; the finalize call is where the harness meets the finalize goroutine
+	w.tbl = vfix.Canon(gpbft.PowerEntries{w.keys.Entry(1, gpbft.NewStoragePower(10), 1), w.keys.Entry(2, gpbft.NewStoragePower(10), 2)})
+	w.ec = &fakeEC{tbl: w.tbl, arrived: make(chan struct{}), proceed: make(chan struct{})}
+	w.ctx, _ = clock.WithMockClock(bg)
 	return w
+}
+
+// fakeEC is the chain the node runs over: a fixed head, and a Finalize that parks the caller (the runner's
+// finalize goroutine, host.go Start) until the harness lets it continue — the production goroutine is thereby
+// stepped deterministically: certificate received -> [harness] -> purge -> trim.
+type fakeEC struct {
+	tbl     gpbft.PowerEntries
+	arrived chan struct{}
+	proceed chan struct{}
+}
+
+type fakeTS struct{ epoch int64 }
+
+func (t fakeTS) String() string       { return fmt.Sprintf("ts%d", t.epoch) }
+func (t fakeTS) Key() gpbft.TipSetKey { return []byte(fmt.Sprintf("g-%d", t.epoch)) }
+func (t fakeTS) Beacon() []byte       { return []byte{1} }
+func (t fakeTS) Epoch() int64         { return t.epoch }
+func (t fakeTS) Timestamp() time.Time { return time.Unix(1700000000+30*t.epoch, 0) }
+
+func (f *fakeEC) GetTipsetByEpoch(_ context.Context, epoch int64) (ec.TipSet, error) {
+	return fakeTS{epoch}, nil
+}
+func (f *fakeEC) GetTipset(_ context.Context, k gpbft.TipSetKey) (ec.TipSet, error) {
+	var e int64
+	if _, err := fmt.Sscanf(string(k), "g-%d", &e); err != nil {
+		return nil, fmt.Errorf("unknown tipset %q", k)
+	}
+	return fakeTS{e}, nil
+}
+func (f *fakeEC) GetHead(context.Context) (ec.TipSet, error) { return fakeTS{100}, nil }
+func (f *fakeEC) GetParent(_ context.Context, t ec.TipSet) (ec.TipSet, error) {
+	return fakeTS{t.Epoch() - 1}, nil
+}
+func (f *fakeEC) GetPowerTable(context.Context, gpbft.TipSetKey) (gpbft.PowerEntries, error) {
+	return f.tbl, nil
+}
+func (f *fakeEC) Finalize(ctx context.Context, _ gpbft.TipSetKey) error {
+	select {
+	case f.arrived <- struct{}{}:
+	case <-ctx.Done():
+		return ctx.Err()
+	}
+	select {
+	case <-f.proceed:
+	case <-ctx.Done():
+		return ctx.Err()
+	}
+	return nil
 }
 
 // exec is one execution of a history.
 type exec struct {
 	w         *world
 	id        uint64
-	dir       string // current WAL directory
+	cs        *certstore.Store // the node's certificate store (survives restarts of the node)
+	ncert     uint64           // certificates 0..ncert-1 are in cs
+	dir       string           // current WAL directory
 	node      *f3.VerifRunner
 	wire      map[slotKey][]string // signatures seen on the wire per slot (across all lifetimes)
 	wireMax   uint64
@@ -202,12 +258,77 @@ func (e *exec) hook(data []byte) {
 }
 
 func (e *exec) start() {
-	n, err := f3.VerifNewRunner(bg, e.w.cs, nil, e.w.ps, e.w.keys, e.w.m, e.dir, e.w.h.ID())
+	n, err := f3.VerifNewRunner(e.w.ctx, e.cs, e.w.ec, e.w.ps, e.w.keys, e.w.m, e.dir, e.w.h.ID())
 	if err != nil {
 		e.bad("start-failed", "starting the node on WAL %s: %v", e.dir, err)
 		return
 	}
 	e.node = n
+	if e.ncert > 0 {
+		// the finalize goroutine's subscription delivers the latest certificate as soon as the node starts
+		e.settle(false, 1)
+	}
+}
+
+// settle steps the runner's asynchronous reaction to a certificate to completion: the finalize goroutine is
+// parked in fakeEC.Finalize; with msgsMutex held it is released, runs its WAL purge and queues on the mutex
+// (together with the main loop's skip-forward, which reads the rebroadcast store, when the certificate is
+// new); then the mutex is handed over until nobody is queued or waking on it.
+func (e *exec) settle(locked bool, waiters int) {
+	fail := func(what string) {
+		fmt.Fprintf(os.Stderr, "equivmc: harness cannot step the finalize goroutine (%s); this is not a property violation\n", what)
+		os.Exit(2)
+	}
+	if !locked {
+		e.node.LockMsgs()
+	}
+	select {
+	case <-e.w.ec.arrived:
+	case <-time.After(10 * time.Minute):
+		fail("certificate never reached ec.Finalize")
+	}
+	e.w.ec.proceed <- struct{}{}
+	t0 := time.Now()
+	for {
+		if n, _ := e.node.MsgsWaiters(); n >= waiters {
+			break
+		}
+		if time.Since(t0) > 10*time.Minute {
+			fail("the goroutines handling the certificate never reached the rebroadcast store")
+		}
+		runtime.Gosched()
+	}
+	e.node.UnlockMsgs()
+	for {
+		e.node.LockMsgs()
+		n, woken := e.node.MsgsWaiters()
+		e.node.UnlockMsgs()
+		if n == 0 && !woken {
+			return
+		}
+		runtime.Gosched()
+	}
+}
+
+// certify: the certificates up to and including instance `upto` arrive (one at a time, each fully handled).
+func (e *exec) certify(upto uint64) {
+	tc := vfix.TableCID(e.w.tbl)
+	for e.ncert <= upto {
+		i := e.ncert
+		base := vfix.TipSet("g", int64(i), tc)
+		base.Key = []byte(fmt.Sprintf("g-%d", i))
+		head := vfix.TipSet("g", int64(i+1), tc)
+		head.Key = []byte(fmt.Sprintf("g-%d", i+1))
+		chain := &gpbft.ECChain{TipSets: []*gpbft.TipSet{base, head}}
+		c := e.w.keys.Cert(e.w.m.NetworkName, i, chain, e.w.tbl, e.w.tbl, []int{0, 1})
+		e.node.LockMsgs()
+		if err := e.cs.Put(bg, c); err != nil {
+			e.node.UnlockMsgs()
+			panic(fmt.Sprintf("certstore put %d: %v", i, err))
+		}
+		e.ncert++
+		e.settle(true, 2)
+	}
 }
 
 func (e *exec) stop() {
@@ -221,6 +342,11 @@ func newExec(w *world) *exec {
 	e := &exec{w: w, id: w.nonce.Add(1), wire: map[slotKey][]string{}}
 	e.dir = filepath.Join(w.root, fmt.Sprintf("x%d-wal0", e.id))
 	_ = os.RemoveAll(e.dir)
+	var err error
+	e.cs, err = certstore.CreateStore(bg, dssync.MutexWrap(datastore.NewMapDatastore()), 0, w.tbl)
+	if err != nil {
+		panic(err)
+	}
 	w.onWire = e.hook
 	e.start()
 	return e
@@ -273,9 +399,12 @@ func (e *exec) apply(op string) {
 		_ = e.node.Broadcast(bg, m)
 	case 'r':
 		_ = e.node.Rebroadcast(gpbft.Instant{ID: uint64(op[1] - '0'), Round: uint64(op[2] - '0'), Phase: phaseOf(op[3])})
+	case 'f':
+		// early network: the finality certificates of instances 0..3 arrive (nothing may be purged yet)
+		e.certify(3)
 	case 'F':
-		// the finality certificate of instance 6 arrives: the node purges its WAL below instance 1
-		e.node.Finalized(6)
+		// the finality certificates up to instance 6 arrive: the node purges its WAL below instance 1
+		e.certify(6)
 	case 'R':
 		e.stop()
 		e.start()
@@ -370,7 +499,7 @@ func (e *exec) key() string {
 	}
 	// signatures embed the execution id: normalise
 	st = strings.ReplaceAll(st, fmt.Sprintf("%x", fmt.Sprintf("-x%d-", e.id)), "")
-	fmt.Fprint(h, st, "|")
+	fmt.Fprint(h, st, "|c", e.ncert, "|")
 	// image at last publish
 	var im []string
 	if e.lastImg != "" {
@@ -407,7 +536,7 @@ func alphabet(thorough bool) []string {
 			ops = append(ops, fmt.Sprintf("r%c1P", i))
 		}
 	}
-	ops = append(ops, "R", "K", "T2", "F")
+	ops = append(ops, "R", "K", "T2", "f", "F")
 	if thorough {
 		ops = append(ops, "T1", "T3")
 	}
@@ -425,7 +554,13 @@ func build(w *world, hist []string) *exec {
 func main() {
 	prop := flag.String("prop", "C12", "")
 	replay := flag.String("replay", "", "replay artefact")
+	cpuprof := flag.String("cpuprofile", "", "write a CPU profile (debugging aid)")
 	flag.Parse()
+	if *cpuprof != "" {
+		f, _ := os.Create(*cpuprof)
+		_ = pprof.StartCPUProfile(f)
+		time.AfterFunc(40*time.Second, func() { pprof.StopCPUProfile(); f.Close(); os.Exit(0) })
+	}
 	_ = prop
 	root := fmt.Sprintf("/dev/shm/verif-c12-%d", os.Getpid())
 	if _, err := os.Stat("/dev/shm"); err != nil {
@@ -444,19 +579,6 @@ func main() {
 	if thorough {
 		depth, maxStates = 8, 600000
 	}
-	ops := alphabet(thorough)
-	e0 := build(w, nil)
-	seen := map[string]bool{e0.key(): true}
-	e0.cleanup()
-	frontier := [][]string{nil}
-	var states, transitions int64 = 1, 0
-	exhaustive := true
-	done := 0
-	budget := 150 * time.Second
-	if thorough {
-		budget = 25 * time.Minute
-	}
-	dl := vcommon.NewDeadline(budget)
 	nw := runtime.NumCPU()
 	worlds := []*world{w}
 	for i := 1; i < nw; i++ {
@@ -468,79 +590,114 @@ func main() {
 		fp   string
 		fail string
 	}
-	for d := 1; d <= depth && len(frontier) > 0 && chk.Violations() == 0; d++ {
-		// expand the whole level in parallel (one world = one libp2p host + gossipsub per worker)
-		type job struct{ hist []string }
-		var jobs []job
-		for _, hist := range frontier {
-			for _, op := range ops {
-				jobs = append(jobs, job{append(append([]string{}, hist...), op)})
-			}
-		}
-		results := make([]result, len(jobs))
-		var nextJob atomic.Int64
-		var timedOut atomic.Bool
-		var wg sync.WaitGroup
-		for wi := 0; wi < nw; wi++ {
-			wg.Add(1)
-			go func(wd *world) {
-				defer wg.Done()
-				for {
-					j := int(nextJob.Add(1)) - 1
-					if j >= len(jobs) {
-						return
-					}
-					if dl.Expired() {
-						timedOut.Store(true)
-						return
-					}
-					e := build(wd, jobs[j].hist)
-					r := result{hist: jobs[j].hist, fp: e.fp, fail: e.fail}
-					if e.fail == "" {
-						r.key = e.key()
-					}
-					e.cleanup()
-					results[j] = r
-				}
-			}(worlds[wi])
-		}
-		wg.Wait()
-		var next [][]string
-		for _, r := range results {
-			if r.hist == nil {
-				continue
-			}
-			transitions++
-			if r.fail != "" {
-				chk.Violation(r.fp, fmt.Sprintf("history %v: %s", r.hist, r.fail), map[string]any{"history": r.hist})
-				break
-			}
-			if !seen[r.key] {
-				if len(seen) >= maxStates {
-					exhaustive = false
-					continue
-				}
-				seen[r.key] = true
-				states++
-				next = append(next, r.hist)
-				if states%211 == 0 {
-					chk.Sample(strings.Join(r.hist, " "))
-				}
-			}
-		}
-		if timedOut.Load() {
-			exhaustive = false
+	// Two searches over the same real runner: first a focused alphabet (one slot, two signatures, one second
+	// instance, every restart/crash/certificate event) that reaches the deeper restart histories within the
+	// budget, then the full alphabet.
+	type phase struct {
+		name   string
+		ops    []string
+		depth  int
+		budget time.Duration
+	}
+	focused := []string{"b710Pa", "b710Pb", "b810Pa", "r70P", "R", "K", "T2", "f", "F"}
+	phases := []phase{{"focused", focused, 7, 50 * time.Second}, {"full", alphabet(false), depth, 100 * time.Second}}
+	if thorough {
+		phases = []phase{{"focused", focused, 9, 8 * time.Minute}, {"full", alphabet(true), depth, 17 * time.Minute}}
+	}
+	var states, transitions int64
+	exhaustive := true
+	allSeen := map[string]bool{}
+	for _, ph := range phases {
+		if chk.Violations() > 0 {
 			break
 		}
-		frontier = next
-		done = d
+		ops := ph.ops
+		depth := ph.depth
+		e0 := build(w, nil)
+		seen := map[string]bool{e0.key(): true}
+		e0.cleanup()
+		frontier := [][]string{nil}
+		states++
+		done := 0
+		dl := vcommon.NewDeadline(ph.budget)
+		for d := 1; d <= depth && len(frontier) > 0 && chk.Violations() == 0; d++ {
+			// expand the whole level in parallel (one world = one libp2p host + gossipsub per worker)
+			type job struct{ hist []string }
+			var jobs []job
+			for _, hist := range frontier {
+				for _, op := range ops {
+					jobs = append(jobs, job{append(append([]string{}, hist...), op)})
+				}
+			}
+			results := make([]result, len(jobs))
+			var nextJob atomic.Int64
+			var timedOut atomic.Bool
+			var wg sync.WaitGroup
+			for wi := 0; wi < nw; wi++ {
+				wg.Add(1)
+				go func(wd *world) {
+					defer wg.Done()
+					for {
+						j := int(nextJob.Add(1)) - 1
+						if j >= len(jobs) {
+							return
+						}
+						if dl.Expired() {
+							timedOut.Store(true)
+							return
+						}
+						e := build(wd, jobs[j].hist)
+						r := result{hist: jobs[j].hist, fp: e.fp, fail: e.fail}
+						if e.fail == "" {
+							r.key = e.key()
+						}
+						e.cleanup()
+						results[j] = r
+					}
+				}(worlds[wi])
+			}
+			wg.Wait()
+			var next [][]string
+			for _, r := range results {
+				if r.hist == nil {
+					continue
+				}
+				transitions++
+				if r.fail != "" {
+					chk.Violation(r.fp, fmt.Sprintf("history %v: %s", r.hist, r.fail), map[string]any{"history": r.hist})
+					break
+				}
+				if !seen[r.key] {
+					if len(seen) >= maxStates {
+						exhaustive = false
+						continue
+					}
+					seen[r.key] = true
+					states++
+					next = append(next, r.hist)
+					if states%211 == 0 {
+						chk.Sample(strings.Join(r.hist, " "))
+					}
+				}
+			}
+			if timedOut.Load() {
+				exhaustive = false
+				break
+			}
+			frontier = next
+			done = d
+		}
+		chk.Set("depth_completed_"+ph.name, done)
+		chk.Set("ops_"+ph.name, len(ops))
+		for k := range seen {
+			allSeen[k] = true
+		}
 	}
 	chk.Set("states", states)
 	chk.Set("transitions", transitions)
 	chk.Set("traces_validated_against_impl", transitions)
-	chk.Set("depth_completed", done)
 	chk.Set("exhaustive", exhaustive && chk.Violations() == 0)
-	for k := range seen {
+	for k := range allSeen {
 		chk.Distinct(k)
 	}
 	chk.Sample("b710Pa K b710Pb")
@@ -548,7 +705,7 @@ func main() {
 		pureFilter(chk, w, thorough)
 	}
 	_ = os.RemoveAll(root)
-	chk.Set("rule", "BFS over histories of {broadcast(instance 7|8, sender 1|2, slot (0,PREPARE)|(0,COMMIT)|(1,PREPARE), signature a|b), rebroadcast(instance, slot), arrival of an old finality certificate (WAL purge), clean restart, crash-restart from the WAL image taken at the last publish, crash in the middle of an append (torn record of 1 byte / half / all-but-one byte left in the log)} on the production runner (newRunner, BroadcastMessage, RequestRebroadcast, Stop) over a real WAL directory and a real gossipsub topic; states deduplicated on (WAL content, wire set, filter + rebroadcast store, image at last publish); the pure filter is explored exhaustively (all broadcast sequences over 2 instances x 2 slots x 2 signatures to depth 6/7) against a reference and the two wire invariants")
+	chk.Set("rule", "BFS over histories of {broadcast(instance 7|8, sender 1|2, slot (0,PREPARE)|(0,COMMIT)|(1,PREPARE), signature a|b), rebroadcast(instance, slot), arrival of the finality certificates up to instance 3 (early network) | up to instance 6 — put into the node's certificate store, handled by the production finalize goroutine (purge, trim) and skip-forward, stepped to completion —, clean restart, crash-restart from the WAL image taken at the last publish, crash in the middle of an append (torn record of 1 byte / half / all-but-one byte left in the log)} on the production runner (newRunner, Start, BroadcastMessage, RequestRebroadcast, Stop; mock clock that never advances, so the participant itself stays idle) over a real WAL directory and a real gossipsub topic; states deduplicated on (WAL content, wire set, filter + rebroadcast store, image at last publish); the pure filter is explored exhaustively (all broadcast sequences over 2 instances x 2 slots x 2 signatures to depth 6/7) against a reference and the two wire invariants")
 	chk.Assume("no storage errors, no second node with the same identity on the runner path; inbound topic validator removed (outbound path under test); messages carry opaque signatures")
 	chk.Finish()
 }
